@@ -899,10 +899,19 @@ class EvalMixin(object):
                             "template may contain braces that are not valid replacement fields")
                 return VStr(FMTRES(tmpl.e, n))
         f = self.ev(node.func, st)
-        if any(isinstance(a, ast.Starred) for a in node.args) or any(k.arg is None for k in node.keywords):
-            raise OutOfSubset("*args/**kwargs call", node)
+        if any(isinstance(a, ast.Starred) for a in node.args):
+            raise OutOfSubset("*args call", node)
         args = [self.ev(a, st) for a in node.args]
-        kwargs = dict((k.arg, self.ev(k.value, st)) for k in node.keywords)
+        kwargs = {}
+        for k in node.keywords:
+            if k.arg is None:
+                # f(..., **d): passed through as the callee's own `kwargs` parameter (only a callee under contract
+                # that declares one can take it)
+                if "kwargs" in kwargs:
+                    raise OutOfSubset("two ** arguments", node)
+                kwargs["kwargs"] = self.ev(k.value, st)
+            else:
+                kwargs[k.arg] = self.ev(k.value, st)
         if not isinstance(f, VFun):
             raise OutOfSubset("call of %r" % (f,), node)
         return f.fn(self, st, args, kwargs, node)
